@@ -176,3 +176,63 @@ Proof.
     assert (Z.log2 (Z.of_N v) < 32) by (apply Z.log2_lt_pow2; blia).
     pose proof (Z.log2_nonneg (Z.of_N v)). rewrite wraps32_small by lia. lia.
 Qed.
+
+(* ------------------------------------------------------------------ read_varint: src/encoding/rle.c *)
+
+From Carquet Require Import Enc.RleModel.
+
+(** the unrolled loop of read_varint, as it is generated: [n] iterations left, [shift] a literal *)
+Fixpoint rle_vloop (n : nat) (data : list Z) (size : Z) (pos out : list Z) (p result shift : Z) : list Z * list Z * Z :=
+  match n with
+  | O => (pos, out, -1)
+  | S n' =>
+    if Z.ltb p size then
+      let p1 := wrapu 64 (p + 1) in
+      let byte := rd data p in
+      let result' := Z.lor result (cshl_u 32 (wrapu 32 (Z.land byte 127)) shift) in
+      if Z.eqb (Z.land byte 128) 0 then (upd pos 0 p1, upd out 0 result', 0)
+      else rle_vloop n' data size pos out p1 result' (shift + 7)
+    else (pos, out, -1)
+  end.
+
+Lemma rle_vloop_model (n : nat) (dataN : list N) (pos out : list Z) (pn : nat) (acc shift : N) :
+  Z.of_nat (length dataN) < 2 ^ 64 -> (pn <= length dataN)%nat -> (Z.of_N shift + 7 * Z.of_nat n <= 35) ->
+  rle_vloop n (map Z.of_N dataN) (Z.of_nat (length dataN)) pos out (Z.of_nat pn) (Z.of_N acc) (Z.of_N shift)
+  = match RleModel.read_varint n shift acc (skipn pn dataN) with
+    | Some (v, rest) => (upd pos 0 (Z.of_nat (length dataN - length rest)), upd out 0 (Z.of_N v), 0)
+    | None => (pos, out, -1)
+    end.
+Proof.
+  intros Hlen. revert pn acc shift. induction n as [|n IH]; intros pn acc shift Hp Hs; [reflexivity|].
+  cbn [rle_vloop RleModel.read_varint].
+  destruct (Z.ltb_spec (Z.of_nat pn) (Z.of_nat (length dataN))) as [L|L].
+  - assert (Hlt : (pn < length dataN)%nat) by lia.
+    rewrite (skipn_cons_nth 0%N dataN pn Hlt). cbv zeta.
+    rewrite rd_map_of_N by exact Hlt. set (b := nth pn dataN 0%N).
+    rewrite (varint_group 32 b shift) by lia. change (Z.to_N 32) with 32%N.
+    rewrite <- of_N_lor. fold (RleModel.u32 (N.shiftl (N.land b 127) shift)).
+    change 128 with (Z.of_N 128). rewrite <- of_N_land. change 0 with (Z.of_N 0) at 1. rewrite Z_eqb_of_N.
+    replace (wrapu 64 (Z.of_nat pn + 1)) with (Z.of_nat (S pn)) by (rewrite wrapu64_small by blia; lia).
+    destruct (N.eqb_spec (N.land b 128) 0) as [E|E].
+    + rewrite skipn_length. do 3 f_equal. lia.
+    + replace (Z.of_N shift + 7) with (Z.of_N (shift + 7)) by lia. apply IH; lia.
+  - replace pn with (length dataN) by lia. rewrite skipn_all. reflexivity.
+Qed.
+
+(** read_varint(data, size, pos, out) with size = the length of data and *pos inside it: the model reads the
+    bytes from *pos on; on success *pos is advanced past the consumed bytes and *out holds the value, on failure
+    (-1) both are untouched *)
+Lemma tie_rle_read_varint (dataN : list N) (pn : nat) (o : Z) :
+  Z.of_nat (length dataN) < 2 ^ 64 -> (pn <= length dataN)%nat ->
+  c_rle_read_varint (map Z.of_N dataN) (Z.of_nat (length dataN)) [Z.of_nat pn] [o]
+  = match RleModel.read_varint 5 0 0 (skipn pn dataN) with
+    | Some (v, rest) => ([Z.of_nat (length dataN - length rest)], [Z.of_N v], 0)
+    | None => ([Z.of_nat pn], [o], -1)
+    end.
+Proof.
+  intros Hlen Hp.
+  transitivity (rle_vloop 5 (map Z.of_N dataN) (Z.of_nat (length dataN)) [Z.of_nat pn] [o] (Z.of_nat pn) 0 0);
+    [reflexivity|].
+  change 0 with (Z.of_N 0) at 1 2. rewrite rle_vloop_model by (cbn; lia).
+  destruct (RleModel.read_varint 5 0 0 (skipn pn dataN)) as [[v rest]|]; reflexivity.
+Qed.
